@@ -331,7 +331,7 @@ theorem lemB_stmt : ∀ (s : Stmt) (σ : List Scope) (b : B) (a : Acc) (il : Boo
     simp only [keys3] at hnd hp hT
     obtain ⟨_, hnd0⟩ := List.nodup_cons.mp hnd
     obtain ⟨⟨_, _, nd_b, nd_h, nd_o, nd_f⟩, _⟩ := nd6 hnd0
-    have kb : ∀ k, k ∈ keysL3 body → k ∈ sk i :: (repKey orelse ++ (repKey handlers ++ (keysL3 body ++ (keysL3 handlers ++ (keysL3 orelse ++ keysL3 final))))) :=
+    have kb : ∀ k, k ∈ keysL3 body → k ∈ sk i :: (elseKey i orelse ++ (repKey handlers ++ (keysL3 body ++ (keysL3 handlers ++ (keysL3 orelse ++ keysL3 final))))) :=
       fun k hk => List.mem_cons_of_mem _ (by simp [hk])
     cases final with
     | nil =>
